@@ -16,7 +16,7 @@ from .model import Model, Mod, dotted_name, member_kind, body_wo_doc, is_logging
 from .report import AnalysisError
 
 MAX_DEPTH = 12
-MAX_UNROLL = 64
+MAX_UNROLL = 4096
 
 
 # ---------------------------------------------------------------- values
@@ -715,9 +715,23 @@ class Ev:
                 x = self.eval(v.value, env, mod)
                 if is_sym(x) and x.is_Integer:
                     x = int(x)
-                if not isinstance(x, (str, int)):
+                elif is_sym(x) and x.is_Rational:
+                    x = float(x)
+                if hasattr(x, "const_key") and isinstance(x.const_key, str):
+                    x = x.const_key
+                if not isinstance(x, (str, int, float)):
                     raise self.err("f-string of a non-constant", n, mod)
-                parts.append(format(x, "") if v.format_spec is None else str(x))
+                spec = ""
+                if v.format_spec is not None:
+                    spec = self.e_JoinedStr(v.format_spec, env, mod)
+                if v.conversion == ord("r"):
+                    x = repr(x)
+                elif v.conversion == ord("s"):
+                    x = str(x)
+                try:
+                    parts.append(format(x, spec))
+                except ValueError:
+                    raise RaisedV("ValueError")
         return "".join(parts)
 
     def e_BoolOp(self, n, env, mod):
@@ -1138,7 +1152,7 @@ class Ev:
             env["__qual__"] = ref
             from .cfg import DefiniteAssignment
             env["__locals__"] = DefiniteAssignment.collect_locals(fd) - set(closure or {})
-            is_gen = any(isinstance(x, (ast.Yield, ast.YieldFrom)) for x in ast.walk(fd))
+            is_gen = has_own_yield(fd)
             if is_gen:
                 env["__yields__"] = []
             try:
@@ -1270,8 +1284,68 @@ class Ev:
         t = self.truth(self.eval(st.test, env, mod), st.test, mod)
         self.exec_body(st.body if t else st.orelse, env, mod)
 
+    def s_While(self, st, env, mod):
+        n = 0
+        while self.truth(self.eval(st.test, env, mod), st.test, mod):
+            n += 1
+            if n > 5000:
+                raise self.err("while-loop folding bound (5000) exceeded", st, mod)
+            try:
+                self.exec_body(st.body, env, mod)
+            except _Continue:
+                continue
+            except _Break:
+                return
+        self.exec_body(st.orelse, env, mod)
+
+    def s_Try(self, st, env, mod):
+        try:
+            self.exec_body(st.body, env, mod)
+        except RaisedV as e:
+            for h in st.handlers:
+                names = []
+                if h.type is None:
+                    names = None
+                elif isinstance(h.type, ast.Tuple):
+                    names = [dotted_name(x) for x in h.type.elts]
+                else:
+                    names = [dotted_name(h.type)]
+                if names is None or any(nm and (nm.split(".")[-1] == e.exc_name.split(".")[-1] or nm in ("Exception", "BaseException")) for nm in names):
+                    if h.name:
+                        env[h.name] = Opaque(f"exception {e.exc_name}")
+                    self.exec_body(h.body, env, mod)
+                    break
+            else:
+                self.exec_body(st.finalbody, env, mod)
+                raise
+        else:
+            self.exec_body(st.orelse, env, mod)
+        self.exec_body(st.finalbody, env, mod)
+
     def s_For(self, st, env, mod):
-        items = self.iterate(self.eval(st.iter, env, mod), st.iter, mod)
+        itv = self.eval(st.iter, env, mod)
+        if hasattr(itv, "sym_next"):
+            n = 0
+            while True:
+                try:
+                    item = itv.sym_next(self)
+                except RaisedV as e:
+                    if e.exc_name == "StopIteration":
+                        break
+                    raise
+                n += 1
+                if n > 5000:
+                    raise self.err("iterator folding bound (5000) exceeded", st, mod)
+                self.assign(st.target, item, env, mod)
+                try:
+                    self.exec_body(st.body, env, mod)
+                except _Continue:
+                    continue
+                except _Break:
+                    return
+            self.exec_body(st.orelse, env, mod)
+            return
+        items = self.iterate(itv, st.iter, mod)
         if len(items) > MAX_UNROLL:
             raise self.err(f"loop unrolling bound {MAX_UNROLL} exceeded", st, mod)
         for item in items:
@@ -1417,6 +1491,19 @@ STR_METHODS = {"lower", "upper", "strip", "split", "startswith", "endswith", "jo
 BUILTINS = {"len", "range", "tuple", "list", "sorted", "zip", "map", "int", "float", "str", "sum", "abs", "min",
             "max", "round", "set", "dict", "enumerate", "isinstance", "next", "reversed", "any", "all", "open",
             "print", "type", "callable", "getattr", "repr", "hash", "bool"}
+
+
+def has_own_yield(fd):
+    """a yield in the function's own body (nested defs and lambdas excluded)"""
+    todo = list(fd.body)
+    while todo:
+        n = todo.pop()
+        if isinstance(n, (ast.Yield, ast.YieldFrom)):
+            return True
+        if isinstance(n, (ast.FunctionDef, ast.AsyncFunctionDef, ast.Lambda, ast.ClassDef)):
+            continue
+        todo.extend(ast.iter_child_nodes(n))
+    return False
 
 
 def delegating_getattr_target(fd):
